@@ -331,7 +331,7 @@ SpaceR == {s \in [rhs : {"R1", "R2", "R3", "R4", "R5", "RA", "RC"}, meth : {"MS"
 (* C15 family: grid='inf' constraints.                                     *)
 (***************************************************************************)
 InfCon(cid, lhs, rhs) == Con(cid, "le", lhs, rhs, "inf", TRUE, TRUE)
-InfIds == {"i1", "i2", "i3", "i4", "i5", "i6", "i7", "i8", "i9", "iA", "iB"}
+InfIds == {"i1", "i2", "i3", "i4", "i5", "i6", "i7", "i8", "i9", "iA", "iB", "iC"}
 InfOf(id, nx) ==
   CASE id = "i1" -> InfCon("i1", X(1), CI(3))
     [] id = "i2" -> InfCon("i2", Sq(X(1)), CI(9))
@@ -341,6 +341,7 @@ InfOf(id, nx) ==
     [] id = "i7" -> Con("i7", "ge", Plus(X(1), Sq(X(1))), CI(-2), "inf", TRUE, TRUE)          \* lower-degree term first: needs degree elevation
     [] id = "i8" -> Con("i8", "ge", Minus(X(nx), Times(X(1), X(nx))), CI(-9), "inf", TRUE, TRUE)
     [] id = "i6" -> Con("i6", "ge", Minus(X(1), Times(C(1, 2), DX(nx))), CI(-6), "inf", TRUE, TRUE)
+    [] id = "iC" -> Con("iC", "ge", Minus(Inert(Times(CI(2), U(1))), Plus(X(1), DX(nx))), CI(-9), "inf", TRUE, TRUE)   \* inf_inert and inf_der in one constraint
     [] id = "iA" -> InfCon("iA", Minus(CI(2), X(1)), CI(5))                                    \* a constant as left operand of a subtraction
     [] id = "iB" -> Con("iB", "ge", Minus(C(1, 2), Times(X(1), X(nx))), CI(-9), "inf", TRUE, TRUE)
 \* i9: two products of a state with the derivative of the other one, in both orders, in one problem
